@@ -3,10 +3,10 @@ from common import coq_options, coq_string, run_batch, run_driver
 import sink
 
 ID = "C07"
-REQUIRES = ["Agree", "C07Spec", "Truth"]
+REQUIRES = ["Agree", "C07Spec", "C07Premise", "Truth"]
 THEOREM_REQUIRES = ["C07"]
-THEOREMS = ["C07_holds_structure", "C07_format_table", "C07_layout_rules", "C07_leaf_layouts"]
-PROOF_FILES = ["Proofs/GenInv.v", "Spec/RustLayout.v", "Proofs/C07Proof.v", "Properties/C07.v"]
+THEOREMS = ["C07_holds", "C07_holds_structure", "C07_format_table", "C07_layout_rules", "C07_leaf_layouts"]
+PROOF_FILES = ["Proofs/GenInv.v", "Spec/RustLayout.v", "Proofs/StructProof.v", "Proofs/C07Proof.v", "Proofs/C07Comp.v", "Properties/C07.v"]
 RULE = ("shaders with 1..3 vertex input structs over f32/i32/u32/f64 scalars and vec2-4, arbitrary (sparse, unordered) "
         "location numbers, @builtin members interleaved (also builtin-only structs), 1..3 structs per vertex entry, "
         "structs shared by several entries (adjacent and non-adjacent), bare builtin parameters, x Rust / Glam / Nalgebra "
@@ -131,10 +131,10 @@ def verdict_expr(c, r, ir, real):
         obs_expr = "forallb (obs_vertex_ok o) %s" % ot
     elif (r.get("obs") or {}).get("obs", 1) is None:
         obs_expr = "true"      # the module did not build against the shim (known C01 classes); not this property's oracle
-    return ('[wf %s; agree_res agree_C07 (gen %s ""%%string None %s) %s; '
+    return ('[wf %s && (wf_vertex_inputs %s || on_out %s kf_vertex_struct_missing); agree_res agree_C07 (gen %s ""%%string None %s) %s; '
             'on_out %s (fun o => C07_ok %s o && %s && %s); '
             'on_out %s kf_vertex_struct_missing; kf_bare_location_arg %s]'
-            % (ir, ir, coq_options(c["opts"]), real, real, ir, obs_expr, "true" if stage else "false", real, ir))
+            % (ir, ir, real, ir, coq_options(c["opts"]), real, real, ir, obs_expr, "true" if stage else "false", real, ir))
 
 
 def nontrivial(c, r):
